@@ -588,6 +588,9 @@ func archives(r *evid.Run, paths []string, scratch string) {
 						if err != nil && strings.HasPrefix(err.Error(), "PANIC") {
 							r.Violate("panic/archive/"+format, fmt.Sprintf("extracting entry %q panicked: %v", name, err), c)
 						}
+						if ref := Resolve(name); (ref.Escapes || ref.Absolute) && err == nil {
+							r.Violate(fmt.Sprintf("accepted/archive/%s/strip%d/%s", format, strip, normalForm(name)), fmt.Sprintf("%s entry %q (strip %d) was extracted without error although the entry name %s", format, name, strip, why(ref)), c)
+						}
 						if d := fx.outside(); d != "" {
 							r.Violate("escaped/archive/"+format+"/"+kind, fmt.Sprintf("%s entry %q (strip %d) into %s: %s", format, name, strip, kind, d), c)
 						}
